@@ -79,6 +79,12 @@ def setup() -> int:
             if not o.ok:
                 return 1
         ok, out, dt = coqrun.make(None, timeout=3000)
+        if not ok:
+            # a file that no claimed property depends on may be work in progress: build the claimed targets
+            log(coqrun.error_excerpt(out))
+            log("setup: full build failed; building the targets of the claimed properties")
+            claimed = [c["property_id"] for c in json.load(open(f"{VERIF}/MANIFEST.json"))["checks"]]
+            ok, out, dt = coqrun.make([f"props/{c}.vo" for c in claimed], timeout=3000)
     if not ok:
         log(out[-6000:])
         log("setup: Coq build FAILED")
